@@ -23,6 +23,8 @@ THEOREMS = [
     "C04_generated_catch",
     "C04_exception_only_leaks",
     "C04_array_idempotent",
+    "C04_seq_idempotent",
+    "C04_pytree_idempotent",
     "C04_pytree_fail_restores",
     "C04_check_restores",
 ]
